@@ -69,18 +69,28 @@ structure PathOK (c : Chain) (fl : Nat) (path : List PE) : Prop where
 
 -- ------------------------------------------------------------------------------------------ tree, work, block universe
 
+/-- the node (found under id `x`) has its block data — or is the root, which has none and needs none
+    (`TxCount == 0 && Parent != nil` is the code's test for "only the header is known") -/
+def HasData (c : Chain) (x : Nat) (n : Node) : Prop := x = c.root ∨ n.txCount ≠ 0
+
 /-- tree well-formedness w.r.t. the block tree `U` the deliveries are drawn from: the root node has height 0 and valid bits; every other
     node has its parent in the tree one level below and is listed among the parent's children; children lists name only
-    real children; every non-root node is a block of `U` (parent, bits, transaction count) and is in the block store with
-    that block's transactions; the block store holds only non-root nodes of the tree -/
+    real children; every non-root node is a block of `U` (parent, bits) and — IF IT HAS ITS DATA (`txCount ≠ 0`) — carries
+    that block's transaction count and is in the block store with that block's transactions; a node WITHOUT data (a header
+    that AcceptHeader linked and whose block has not been committed yet) is not in the block store (`hdr`); the nodes with
+    data are closed under "parent" (`anc`: CommitBlock is only called on a node whose parent has its data — the client's
+    HasAllParents test, and AcceptBlock on top of a block that has it); the block store holds only non-root nodes of the tree -/
 structure TreeWF (U : List Block) (c : Chain) : Prop where
   root : ∃ r, getNode c c.root = some r ∧ r.height = 0 ∧ r.bits % 0x1000000 ≠ 0
   par : ∀ x n, getNode c x = some n → x ≠ c.root →
         ∃ p, getNode c n.parent = some p ∧ n.height = p.height + 1 ∧ x ∈ p.childs
   childs : ∀ y p, getNode c y = some p → ∀ x ∈ p.childs, x ≠ c.root ∧ ∃ n, getNode c x = some n ∧ n.parent = y
   blk : ∀ x n, getNode c x = some n → x ≠ c.root →
-        ∃ b ∈ U, b.id = x ∧ b.parent = n.parent ∧ b.bits = n.bits ∧ n.txCount = b.txs.length ∧
-          ∃ s, alookup x c.store = some s ∧ s.txs = b.txs
+        ∃ b ∈ U, b.id = x ∧ b.parent = n.parent ∧ b.bits = n.bits ∧
+          (n.txCount ≠ 0 → n.txCount = b.txs.length ∧ ∃ s, alookup x c.store = some s ∧ s.txs = b.txs)
+  hdr : ∀ x n, getNode c x = some n → n.txCount = 0 → alookup x c.store = none
+  anc : ∀ x n, getNode c x = some n → x ≠ c.root → n.txCount ≠ 0 →
+        ∃ p, getNode c n.parent = some p ∧ HasData c n.parent p
   store : ∀ k s, alookup k c.store = some s → k ≠ c.root ∧ (getNode c k).isSome = true
 
 /-- cumulative work of a node: Σ difficulty over the nodes from `n` down to (excluding) the root; exact rationals -/
@@ -93,11 +103,13 @@ def cumWorkN (c : Chain) : Nat → Node → Q
 
 def workOf (c : Chain) (n : Node) : Q := cumWorkN c n.height n
 
-/-- **the tip is a maximum-work node of the tree**: no node the chain knows (every node of the model's tree is fully
-    stored and has not been found invalid — invalid blocks are removed with their descendants when found) has more
-    cumulative work than the tip. Since work grows strictly along a branch this is the same as "≥ every other leaf". -/
+/-- **the tip is a maximum-work node among the nodes that have their data**: no node of the tree whose block data the
+    chain has (and, by `TreeWF.anc`, the data of all its ancestors: a block that could be connected) and that has not been
+    found invalid — invalid blocks are removed with their descendants when found — has more cumulative work than the tip.
+    Header-only nodes (announced, data not yet received) do not compete. Since work grows strictly along a branch this is
+    the same as "≥ every other leaf of the tree of blocks with data". -/
 def MaxWork (c : Chain) : Prop :=
-  ∃ t, getNode c c.tip = some t ∧ ∀ x n, getNode c x = some n → (workOf c n).gt (workOf c t) = false
+  ∃ t, getNode c c.tip = some t ∧ ∀ x n, getNode c x = some n → HasData c x n → (workOf c n).gt (workOf c t) = false
 
 def headR (root : Nat) : List PE → Nat
   | [] => root
